@@ -235,8 +235,9 @@ class SymRun:
         if r != z3.sat:
             self.st['undecided'].append(label)
             raise PathEnd('undecided')
+        m0 = self.ctx.solver.model()         # taken now: the lattice search below leaves the solver in whatever state its last query had
         m = self.ctx.lattice_model(z3.BoolVal(True)) if self.cfg.get('lattice', True) else None
-        self._violation(label, m or self.ctx.solver.model(), detail)
+        self._violation(label, m or m0, detail)
 
     def end(self, kind):
         """finish this path early with a named, counted outcome (e.g. 'raised')."""
